@@ -34,7 +34,10 @@ RULE_ADDED = (
               ' '
               'Round 8: the SGX root of trust delivered as a file, from a URL, or from the buil'
               't-in default URL (stand-in web: same URL, another root in every case; non-200 an'
-              'swers). ')
+              'swers). '
+              ' '
+              'Round 9: a certificate of the SGX chain re-issued by a key of another signature '
+              'algorithm. ')
 RULE = RULE + " " + RULE_ADDED.strip()
 ASSUMPTIONS = [
     "stdout of the commands is parsed by label ('UD value:', 'Hash:', ...)",
@@ -370,7 +373,8 @@ SGX_VARIANTS = ["genuine", "genuine-reordered", "key-replaced", "keys-swapped-pa
                 "missing-quote-target", "wrong-root", "root-not-self-signed", "root-expired",
                 "root-missing-file", "flip-quote-signature", "custom-data-other",
                 "genuine-odd-paths", "odd-paths-hash-in-numeric-order", "forged-extra-targets",
-                "forged-extra-targets", "flip-signature-extra-targets"]
+                "forged-extra-targets", "flip-signature-extra-targets",
+                "cert-by-key-of-another-algorithm", "cert-by-key-of-another-algorithm"]
 
 
 def sgx_case(acc, rng, variant, tmpdir, case):
@@ -440,6 +444,18 @@ def sgx_case(acc, rng, variant, tmpdir, case):
         k = g2.new_key(rng)
         root_cert = g2.make_cert("root", k.public_key(), "root", k)
         expect_ok = False
+    elif variant == "cert-by-key-of-another-algorithm":
+        # one certificate of the chain re-issued (same subject, key and period, same issuer
+        # name) by somebody's Ed25519 / Ed448 / RSA / P-384 ... key
+        i = rng.randrange(len(m.certs))
+        alg, key = g2.other_algorithm_key(rng)
+        c2 = g2.make_cert("ca%d" % i, m.cert_keys[i].public_key(),
+                          "root" if i == 0 else "ca%d" % (i - 1), key, serial=98)
+        xs = [e for e in doc["elements"] if e["type"] == "x509_pem"]
+        by_subject = [e for e in xs if e["message"] == g2.pem_body(m.certs[i])]
+        if by_subject:
+            by_subject[0]["message"] = g2.pem_body(c2)
+            expect_ok = False
     elif variant == "forged-extra-targets":
         k = g2.new_key(rng)
         root_cert = g2.make_cert("root", k.public_key(), "root", k)
